@@ -377,6 +377,16 @@ func observe(p []byte) (o progObs, fail string) {
 			return o, "class=recogniser-builder: recognised P2W program is not the builder's output for its hash"
 		}
 	}
+	if o.recs[5] {
+		// a recognised call-contract program is the builder's output for the hash it carries
+		var q []byte
+		if len(o.pr.insts) == 2 {
+			q, _ = vmutil.CallContractProgram(o.pr.insts[1].Data)
+		}
+		if !bytes.Equal(q, p) {
+			return o, "class=recogniser-builder: recognised call-contract program is not the builder's output for its hash"
+		}
+	}
 	if o.recs[4] {
 		c, err := bcrp.ParseContract(p)
 		if err != nil || len(c) == 0 {
@@ -786,6 +796,21 @@ func run(c *Ctx) error {
 			st.Count("model_evaluated")
 			st.Count("builder:" + b.name)
 			check(b.prog, "builder:"+b.name, true, true)
+			// near misses of the built program: one byte changed (tags, opcodes, lengths), and
+			// only the first / only the second data push re-encoded
+			if k < 40 && len(b.prog) > 0 && len(b.prog) <= 80 {
+				for pos := 0; pos < len(b.prog) && pos < 8; pos++ {
+					v := append([]byte{}, b.prog...)
+					v[pos] ^= []byte{0x01, 0x20, 0x80}[(pos+k)%3]
+					check(v, "near-miss", true, true)
+				}
+				for which := 0; which < 2; which++ {
+					if v := reencodeOnePush(b.prog, which); v != nil {
+						check(v, "near-miss", true, true)
+					}
+				}
+				st.Count("near-miss")
+			}
 			// the same instructions with every data push re-encoded non-minimally (PUSHDATA1/2/4):
 			// such a program is not the builder's output, so a recogniser that accepts it must
 			// still satisfy the converse-shape rule of observe()
@@ -920,6 +945,37 @@ func reencodePushes(p []byte, enc int) []byte {
 		out = append(out, byte(in.Op))
 		if isJump(in) {
 			out = append(out, in.Data...)
+		}
+	}
+	if !changed {
+		return nil
+	}
+	return out
+}
+
+// reencodeOnePush re-writes only the which-th non-empty data push of p with PUSHDATA1.
+func reencodeOnePush(p []byte, which int) []byte {
+	pr := safeParse(p)
+	if pr.panicked || pr.err != nil {
+		return nil
+	}
+	var out []byte
+	n, changed := 0, false
+	for _, in := range pr.insts {
+		if in.Op >= vm.OP_DATA_1 && in.Op <= vm.OP_DATA_75 {
+			if n == which {
+				out = append(out, byte(vm.OP_PUSHDATA1), byte(len(in.Data)))
+				changed = true
+			} else {
+				out = append(out, byte(in.Op))
+			}
+			out = append(out, in.Data...)
+			n++
+			continue
+		}
+		out = append(out, byte(in.Op))
+		if isJump(in) || in.Op == vm.OP_PUSHDATA1 || in.Op == vm.OP_PUSHDATA2 || in.Op == vm.OP_PUSHDATA4 {
+			return nil // keep it simple: only programs of plain pushes and single-byte ops
 		}
 	}
 	if !changed {
